@@ -149,7 +149,7 @@ PROPS = {
         "components": ["s3", "plumbing"],
         "required_theorems": ["PgBifrost.Props.C12.s3_key_format", "PgBifrost.Props.C12.s3_object_key_injective",
                               "PgBifrost.Props.C12.s3_body_lines", "PgBifrost.Props.C12.s3_retry_from_zero",
-                              "PgBifrost.Props.C12.s3_no_report_on_giveup", "PgBifrost.Props.C12.s3_key_as_in_source", "PgBifrost.Props.C12.s3_worker_as_in_source"],
+                              "PgBifrost.Props.C12.s3_no_report_on_giveup", "PgBifrost.Props.C12.s3_key_as_in_source", "PgBifrost.Props.C12.s3_worker_as_in_source", "PgBifrost.Props.C12.date_string_as_in_source"],
         "assumptions": ["bytes.Buffer.Reset / pgzip.Writer.Reset leave an empty stream (ResetEmpties; exercised by the correspondence "
                         "with reuse limits 0/1/2/5)", "gzip is an input: a sink that reads the whole body from offset 0 decodes the plain text",
                         "clock strings non-empty, no '/', full = 14 characters"],
